@@ -30,6 +30,16 @@ def specP : P String := do
       -- one execution moved the due instant by exactly one period
       let tm ← timingP; let prev ← int; let new ← int
       pure (okB (new == prev + tm.period))
+  | "cadence" => do
+      -- the k-th execution (k = 1, 2, …) of a cyclic job belongs to s + k·T (delay) / s + (k-1)·T (no delay)
+      let delay ← bool; let sv ← int; let T ← int; let k ← int; let due ← int
+      pure (okB (due == sv + (if delay then k else k - 1) * T))
+  | "days" => do
+      -- days_to_weekday s d = n (n = -1: rejected with SchedulerError), and 1 ≤ n ≤ 7 lands on d
+      let sv ← int; let d ← int; let n ← int
+      match daysToWeekday sv d with
+      | none => pure (okB (n == -1))
+      | some m => pure (okB (n == m && 1 ≤ n && n ≤ 7 && (sv + n) % 7 == d))
   | "eq" => do
       let a ← int; let b ← int
       pure (okB (a == b))
